@@ -1133,3 +1133,601 @@ def exists_form(fn_node, pred) -> Optional[Tuple[str, bool]]:
     if inner[0].value.value is False and outer[0].value.value is True:
         return "forall", not pol
     return None
+
+
+def order_only_restore_rule(ctx, res, rule: str) -> None:
+    """(shared C10 / C11) A selective undo/redo first moves the chosen changes to the top of its list and then processes
+    them one by one; each processed change MOVES to the other list.  When a later one fails, the handler must undo the
+    reordering -- of the elements that are still in the list.  It may therefore only REORDER the list (sort / reverse, in
+    place, directly or through a helper that does nothing else to it): putting a snapshot back (slice assignment, clear +
+    extend, rebinding) resurrects the changes that were already processed, which then sit in both lists."""
+    idx = ctx.idx
+    hist = idx.need_class("rope.base.history.History")
+    aliases = property_aliases(hist)
+    lists = list_attrs_of_init(hist)
+
+    def canon0(e):
+        if is_self_attr(e):
+            a = aliases.get(e.attr, e.attr)
+            return a if a in lists else None
+        return None
+
+    def only_reorders_param(h: FuncInfo, i: int) -> Optional[str]:
+        """None when the helper does nothing to its i-th (caller-side) parameter but sort/reverse it; else a description"""
+        ps = h.call_params()
+        if i >= len(ps):
+            return "argument not bound"
+        p = ps[i]
+        for st in walk_local(h.node):
+            if not isinstance(st, ast.stmt):
+                continue
+            for e in mutated_exprs(st):
+                if isinstance(e, ast.Name) and e.id == p:
+                    c = st.value if isinstance(st, ast.Expr) and isinstance(st.value, ast.Call) else None
+                    if not (c is not None and isinstance(c.func, ast.Attribute) and c.func.attr in ("sort", "reverse")):
+                        return ast.unparse(st)[:60]
+        return None
+
+    n = 0
+    for mname in ("undo", "redo"):
+        m = hist.methods.get(mname)
+        if m is None:
+            continue
+        # the handlers: of a try in the method itself, or of a try in a context manager of the class that the method
+        # enters with one of the lists (`with self._keeping_order(self.undo_list): ...`)
+        tries = [(t, canon0) for t in walk_local(m.node) if isinstance(t, ast.Try)]
+        for w in [x for x in walk_local(m.node) if isinstance(x, ast.With)]:
+            for it in w.items:
+                c = it.context_expr
+                if isinstance(c, ast.Call) and is_self_attr(c.func):
+                    cm = idx.find_method(hist.qualname, c.func.attr)
+                    if cm is not None and any(d.split(".")[-1] == "contextmanager" for d in cm.decorator_names()):
+                        bound = {p: canon0(a) for p, a in zip(cm.call_params(), c.args) if canon0(a)}
+
+                        def canon_cm(e, bound=bound):
+                            return bound.get(e.id) if isinstance(e, ast.Name) else canon0(e)
+                        tries += [(t, canon_cm) for t in walk_local(cm.node) if isinstance(t, ast.Try)]
+        for t, canon in tries:
+            for h in t.handlers:
+                for st in [x for b in h.body for x in [b, *walk_local(b)] if isinstance(x, ast.stmt)]:
+                    bad = None
+                    touched = False
+                    for e in mutated_exprs(st):
+                        if canon(e):
+                            touched = True
+                            c = st.value if isinstance(st, ast.Expr) and isinstance(st.value, ast.Call) else None
+                            if not (c is not None and isinstance(c.func, ast.Attribute) and c.func.attr in ("sort", "reverse") and canon(c.func.value)):
+                                bad = ast.unparse(st)[:70]
+                    if isinstance(st, ast.Assign) and any(canon(tg) for tg in st.targets):
+                        touched, bad = True, ast.unparse(st)[:70]
+                    if isinstance(st, ast.Expr) and isinstance(st.value, ast.Call) and is_self_attr(st.value.func):
+                        hp = idx.find_method(hist.qualname, st.value.func.attr)
+                        for i, a in enumerate(st.value.args):
+                            if canon(a) and hp is not None:
+                                touched = True
+                                why = only_reorders_param(hp, i)
+                                if why:
+                                    bad = f"{hp.name}: {why}"
+                    if isinstance(st, ast.Expr) and isinstance(st.value, ast.Call) and isinstance(st.value.func, ast.Name):
+                        q = idx.resolve(m.unit.modname, st.value.func)
+                        hp = idx.functions.get(q) if q else None
+                        for i, a in enumerate(st.value.args):
+                            if canon(a) and hp is not None:
+                                touched = True
+                                why = only_reorders_param(hp, i)
+                                if why:
+                                    bad = f"{hp.name}: {why}"
+                    if not touched:
+                        continue
+                    n += 1
+                    res.add(rule, f"History.{mname}|handler-reorders-only#{n}", bad is None, f"{m.unit.rel}:{st.lineno}",
+                            "after a failed selective undo/redo the handler only reorders the list" if bad is None else
+                            f"after a failed selective {mname} the handler does `{bad}` to the history list: it puts back more than an order -- the changes that "
+                            f"were already processed before the failure have moved to the other list and are now in BOTH, so the next {mname}() re-applies one of them",
+                            function=m.qualname)
+    res.floor(rule, "history-list restorations in undo/redo handlers", n, 2)
+
+
+def import_presence_rule(ctx, res, rule: str) -> None:
+    """(shared C04 / C17 / C05) Whether a module already has an import is a question about its IMPORT STATEMENTS at module
+    level -- the import machinery (`add_import` merges duplicates itself) answers it.  A line of text that reads
+    `import os` proves nothing: it may be a function-local import, stand under `if TYPE_CHECKING:`, or be a docstring line.
+    In every function that adds imports, no membership test against text lines (`.splitlines()`) decides which imports
+    are added."""
+    idx = ctx.idx
+    n = 0
+    for f in sorted(idx.functions.values(), key=lambda f: f.qualname):
+        if not f.unit.modname.startswith("rope.refactor"):
+            continue
+        if not any(call_name(c) == "add_import" for c in calls_in(f.node)):
+            continue
+        n += 1
+        line_sets = set()
+        for x in walk_local(f.node):
+            if isinstance(x, ast.Assign) and any(isinstance(c, ast.Call) and call_name(c) == "splitlines" for c in ast.walk(x.value)):
+                line_sets |= {t.id for t in x.targets if isinstance(t, ast.Name)}
+        bad = None
+        for x in walk_local(f.node):
+            if isinstance(x, ast.Compare) and len(x.ops) == 1 and isinstance(x.ops[0], (ast.In, ast.NotIn)):
+                r = x.comparators[0]
+                if (isinstance(r, ast.Name) and r.id in line_sets) or any(isinstance(c, ast.Call) and call_name(c) == "splitlines" for c in ast.walk(r)):
+                    bad = x
+        short = f.qualname.split(".", 2)[-1]
+        res.add(rule, f"{short}|imports-not-decided-on-text", bad is None, f"{f.unit.rel}:{(bad or f.node).lineno}",
+                "which imports are added is left to the import machinery" if bad is None else
+                f"{short} decides with `{ast.unparse(bad)}` -- a membership test against the module's TEXT LINES -- whether an import is still needed: a line "
+                "`import os` inside some function (or under `if TYPE_CHECKING:`, or in a docstring) makes it skip the module-level import, and the code "
+                "that was just inserted raises NameError", function=f.qualname)
+    res.floor(rule, "functions that add imports", n, 5)
+
+
+# ---------------------------------------------------------------------------------------------------------------------
+# byte columns (shared C01 / C02 / C06 / C08)
+
+_COLS = ("col_offset", "end_col_offset")
+
+# No function is exempt by name.  What is exempt is the START column of a node that the code has just tested to be a
+# STATEMENT (`isinstance(x, ast.stmt)` / `isinstance(x, ast.If)` ... holds on every path to the read): a compound statement
+# starts its line, only indentation precedes it; a simple statement is preceded by indentation or by `;`-separated
+# statements of the same line, and rope uses such a column as an upper bound only.
+BYTE_COLUMN_EXEMPT: Dict[str, str] = {}
+_STMT_CLASSES = {c.__name__ for c in vars(ast).values() if isinstance(c, type) and issubclass(c, ast.stmt)}
+
+
+def _statement_columns(f_node) -> Set[int]:
+    """ids of the `x.col_offset` reads of a function where x is known to be a statement"""
+    from ..cfg import CFG
+    out: Set[int] = set()
+    reads = [x for x in walk_local(f_node) if isinstance(x, ast.Attribute) and x.attr == "col_offset" and isinstance(x.ctx, ast.Load) and dotted(x.value)]
+    if not reads:
+        return out
+    cfg = CFG(f_node)
+    for x in reads:
+        who = dotted(x.value)
+        for nd in cfg.node_containing(x):
+            for t, pol in cfg.guards(nd.id):
+                if pol and isinstance(t, ast.Call) and call_name(t) == "isinstance" and len(t.args) == 2 and dotted(t.args[0]) == who:
+                    classes = t.args[1].elts if isinstance(t.args[1], ast.Tuple) else [t.args[1]]
+                    names = [(dotted(c) or "").split(".")[-1] for c in classes]
+                    if names and all(nm in _STMT_CLASSES for nm in names):
+                        out.add(id(x))
+    return out
+
+
+def _is_col_read(x: ast.AST) -> bool:
+    if isinstance(x, ast.Attribute) and x.attr in _COLS and isinstance(x.ctx, ast.Load):
+        return True
+    return (isinstance(x, ast.Call) and call_name(x) == "getattr" and len(x.args) >= 2
+            and isinstance(x.args[1], ast.Constant) and x.args[1].value in _COLS)
+
+
+def column_to_offset_anchor(ctx, res, rule: str) -> None:
+    """`codeanalyze.column_to_offset(line, byte_column)` is the one place that turns a byte column into an index: it must
+    measure the UTF-8 encoding of the line, and may return the number unchanged only for an ASCII line."""
+    idx = ctx.idx
+    f = idx.functions.get("rope.base.codeanalyze.column_to_offset")
+    if f is None:
+        # no converter at all: every use of a byte column is then judged by byte_column_rule on its own
+        return
+    ps = param_names(f.node)
+    if len(ps) < 2:
+        raise AnalysisError("column_to_offset: expected (line, byte_column)")
+    line, col = ps[0], ps[1]
+    from ..cfg import CFG
+    cfg = CFG(f.node)
+    bad = None
+    n = 0
+    for r in [x for x in walk_local(f.node) if isinstance(x, ast.Return)]:
+        n += 1
+        v = r.value
+        if v is None:
+            bad = bad or (r, "returns nothing")
+            continue
+        if isinstance(v, ast.Name) and v.id == col:
+            node = cfg.node_of_stmt(r)
+            ok = node is not None and any(pol and isinstance(t, ast.Call) and call_name(t) == "isascii" and dotted(t.func.value) == line
+                                          for t, pol in cfg.guards(node.id))
+            if not ok:
+                bad = bad or (r, f"returns `{col}` unchanged although the line is not known to be ASCII")
+            continue
+        enc = [c for c in ast.walk(v) if isinstance(c, ast.Call) and call_name(c) == "encode" and isinstance(c.func, ast.Attribute) and dotted(c.func.value) == line]
+        utf8 = all((not c.args and not c.keywords) or (c.args and isinstance(c.args[0], ast.Constant) and str(c.args[0].value).lower().replace("_", "-") in ("utf-8", "utf8")) for c in enc)
+        cut = [s for s in ast.walk(v) if isinstance(s, ast.Subscript) and isinstance(s.slice, ast.Slice) and s.slice.lower is None
+               and isinstance(s.slice.upper, ast.Name) and s.slice.upper.id == col and any(e is s.value for e in enc)]
+        if not (enc and utf8 and cut and any(isinstance(c, ast.Call) and call_name(c) == "decode" for c in ast.walk(v))):
+            bad = bad or (r, f"`{ast.unparse(v)}` does not count the characters of the first `{col}` UTF-8 bytes of the line")
+    if n == 0:
+        raise AnalysisError("column_to_offset: no return")
+    res.add(rule, "column_to_offset|measures-utf8-bytes", bad is None, f"{f.unit.rel}:{(bad[0] if bad else f.node).lineno}",
+            "column_to_offset cuts the UTF-8 encoding of the line at the byte column and counts the characters before it; the identity is taken only for an ASCII line"
+            if bad is None else
+            f"column_to_offset {bad[1]}: AST columns count UTF-8 bytes, so behind a non-ASCII character every position computed from one is shifted right",
+            function=f.qualname)
+
+
+def byte_column_rule(ctx, res, rule: str, modules, rest: bool = False) -> None:
+    """The `col_offset` / `end_col_offset` of an AST node counts UTF-8 BYTES from the start of the node's own line.  rope's
+    offsets are indices into a `str`.  The two agree only while the text before the column is ASCII; `"é"` earlier on the
+    line shifts every later byte column.  Rule: a byte column read anywhere in `modules` (with rest=True: in every module
+    that no other instance of this rule covers) flows only into
+      * the `byte_column` argument of `codeanalyze.column_to_offset`, directly or as the argument of a function of the
+        same module whose parameter obeys this rule again,
+      * comparisons and `(lineno, col)` ordering pairs (bytes and characters order positions on one line alike).
+    Arithmetic with it, slicing with it, returning or yielding it bare is reported.  Exempt is the START column of a node
+    that was tested to be a statement on every path to the read (see _statement_columns): only indentation precedes it."""
+    idx = ctx.idx
+    covered = ("rope.refactor.functionutils", "rope.refactor.occurrences", "rope.refactor.patchedast")
+    n = 0
+    memo: Dict[Tuple[str, str], Optional[str]] = {}
+
+    def local_callee(f: FuncInfo, call: ast.Call) -> Optional[FuncInfo]:
+        fn = call.func
+        if isinstance(fn, ast.Name):
+            g = f
+            while g is not None:
+                c = idx.functions.get(f"{g.qualname}.<locals>.{fn.id}")
+                if c is not None:
+                    return c
+                g = g.parent
+            return idx.functions.get(f"{f.unit.modname}.{fn.id}")
+        if isinstance(fn, ast.Attribute) and isinstance(fn.value, ast.Name) and fn.value.id in ("self", "cls"):
+            g = f
+            while g is not None and g.cls is None:
+                g = g.parent
+            if g is not None:
+                return idx.find_method(g.cls.qualname, fn.attr)
+        return None
+
+    def flows(f: FuncInfo, src_pred, depth: int = 0) -> Optional[str]:
+        """first misuse of the values selected by src_pred inside f, or None"""
+        parents = {}
+        for p in ast.walk(f.node):
+            for c in ast.iter_child_nodes(p):
+                parents[c] = p
+        local = set(walk_local(f.node))
+        tainted: Set[str] = set()
+        work = [x for x in local if src_pred(x)]
+        seen = set()
+        while work:
+            e = work.pop()
+            if id(e) in seen:
+                continue
+            seen.add(id(e))
+            p = parents.get(e)
+            while isinstance(p, (ast.IfExp, ast.BoolOp)) or (isinstance(p, ast.Call) and call_name(p) in ("min", "max") and e in p.args):
+                e, p = p, parents.get(p)
+            where = f"{f.unit.rel}:{getattr(e, 'lineno', f.node.lineno)}"
+            if isinstance(p, ast.keyword):
+                kw, e, p = p, p, parents.get(p)
+            else:
+                kw = None
+            if isinstance(p, (ast.Compare, ast.Assert)):
+                continue
+            if isinstance(p, ast.Tuple) and isinstance(parents.get(p), (ast.Return, ast.Compare)):
+                continue
+            if isinstance(p, ast.Assign) and len(p.targets) == 1 and isinstance(p.targets[0], ast.Name) and p.value is e:
+                name = p.targets[0].id
+                if name not in tainted:
+                    tainted.add(name)
+                    work.extend(x for x in local if isinstance(x, ast.Name) and x.id == name and isinstance(x.ctx, ast.Load))
+                continue
+            if isinstance(p, ast.Call) and (e in p.args or kw is not None):
+                cn = call_name(p)
+                if cn == "column_to_offset":
+                    pos = p.args.index(e) if e in p.args else None
+                    if pos == 1 or (kw is not None and kw.arg == "byte_column"):
+                        continue
+                    return f"{where}: `{ast.unparse(p)}` passes the byte column as the LINE argument"
+                if cn in ("hasattr", "isinstance"):
+                    continue
+                g = local_callee(f, p)
+                if g is not None and depth < 4:
+                    ps = g.call_params()
+                    if kw is not None:
+                        pname = kw.arg
+                    else:
+                        i = p.args.index(e)
+                        pname = ps[i] if i < len(ps) else None
+                    if pname is not None:
+                        key = (g.qualname, pname)
+                        if key not in memo:
+                            memo[key] = None  # recursion: assume fine
+                            memo[key] = flows(g, lambda x: isinstance(x, ast.Name) and x.id == pname and isinstance(x.ctx, ast.Load), depth + 1)
+                        if memo[key] is None:
+                            continue
+                        return f"{where}: passed to {g.name}(), where {memo[key]}"
+                return f"{where}: `{ast.unparse(p)[:90]}` hands the byte column to a function that is not known to convert it"
+            what = ast.unparse(p)[:90] if p is not None else "?"
+            kind = {ast.BinOp: "does arithmetic with", ast.Subscript: "indexes with", ast.Slice: "slices with", ast.Return: "returns",
+                    ast.Yield: "yields", ast.AugAssign: "adds"}.get(type(p), "uses")
+            return f"{where}: `{what}` {kind} the byte column as if it were a character column"
+        return None
+
+    for f in sorted(idx.functions.values(), key=lambda f: f.qualname):
+        mod = f.unit.modname
+        if not (mod in modules or (rest and mod.startswith("rope.") and mod not in covered)):
+            continue
+        if mod == "rope.base.codeanalyze" and f.name == "column_to_offset":
+            continue
+        reads = [x for x in walk_local(f.node) if _is_col_read(x)]
+        if not reads:
+            continue
+        n += len(reads)
+        short = f.qualname.split(".", 2)[-1].replace(".<locals>", "")
+        stmt_cols = _statement_columns(f.node)
+        bad = flows(f, lambda x: _is_col_read(x) and id(x) not in stmt_cols)
+        res.add(rule, f"{short}|byte-column-converted", bad is None, f.where if bad is None else bad.split(": ", 1)[0],
+                f"{len(reads)} byte column(s) read; each is converted by column_to_offset, only compared, or the start column of a node tested to be a statement ({len(stmt_cols)})" if bad is None else
+                f"{short}: {bad.split(': ', 1)[1]}.  `col_offset`/`end_col_offset` count UTF-8 bytes: with a non-ASCII character earlier on the line the "
+                "position lies right of the real one by the byte surplus", function=f.qualname, columns=len(reads))
+    res.floor(rule, "byte columns read", n, 1)
+
+
+# ---------------------------------------------------------------------------------------------------------------------
+# memo keys (shared C03 / C06 / C09 / C13 / C19)
+
+# <function>|<parameter>: why the memo key may leave the parameter out
+MEMO_KEY_EXEMPT = {
+    "rope.base.pycore._ModuleCache.get_pymodule|force_errors":
+        "decides only whether a syntax error is raised or recorded; a module that has errors is returned before the store, so every stored module is the same for both values",
+}
+
+_MEMO_SELFCHECK = '''
+class M:
+    def good(self, a, b):
+        key = (a.x, b)
+        if key not in self.memo:
+            self.memo[key] = self._work(a, b)
+        return self.memo[key]
+    def _work(self, a, b):
+        return a.x + b
+    def bad(self, a, b):
+        try:
+            return self.memo2[a.x]
+        except KeyError:
+            r = self.memo2[a.x] = self._work2(a, b)
+            return r
+    def _work2(self, a, b):
+        return a.y + b
+'''
+
+
+def _param_path(parents, n: ast.Name) -> Tuple[str, ast.AST]:
+    """the longest attribute path read from the name: `p.a.b` for `p.a.b.c()`, and the node that spells it"""
+    path, cur = n.id, n
+    while True:
+        p = parents.get(cur)
+        if isinstance(p, ast.Attribute) and p.value is cur:
+            q = parents.get(p)
+            if isinstance(q, ast.Call) and q.func is p:
+                return f"{path}.{p.attr}", q
+            path, cur = f"{path}.{p.attr}", p
+            continue
+        return path, cur
+
+
+def memo_functions(fn_node: ast.AST):
+    """[(dict attribute, key expression (resolved), key nodes, store nodes)] for the memo idioms of a function: a value is
+    read from `self.<d>[K]` (or `.get(K)`) and returned, and stored under the same K in the same function"""
+    singles: Dict[str, List[ast.expr]] = {}
+    for x in walk_local(fn_node):
+        if isinstance(x, ast.Assign):
+            for t in x.targets:
+                if isinstance(t, ast.Name):
+                    singles.setdefault(t.id, []).append(x.value)
+        elif isinstance(x, (ast.AugAssign, ast.AnnAssign, ast.For, ast.NamedExpr)) and isinstance(getattr(x, "target", None), ast.Name):
+            singles.setdefault(x.target.id, []).extend([None, None])
+    params = set(param_names(fn_node))
+
+    def resolve(k):
+        if isinstance(k, ast.Name) and k.id not in params and len(singles.get(k.id, [])) == 1 and singles[k.id][0] is not None:
+            return singles[k.id][0]
+        return k
+
+    def base(x):
+        if isinstance(x, ast.Attribute) and isinstance(x.value, ast.Name) and x.value.id in ("self", "cls"):
+            return x.attr
+        return None
+
+    stores, reads = {}, {}
+    for x in walk_local(fn_node):
+        if isinstance(x, ast.Subscript) and base(x.value) and not isinstance(x.slice, ast.Slice):
+            (stores if isinstance(x.ctx, ast.Store) else reads).setdefault(base(x.value), []).append((x, x.slice))
+        elif isinstance(x, ast.Call) and isinstance(x.func, ast.Attribute) and x.func.attr == "get" and base(x.func.value) and x.args:
+            reads.setdefault(base(x.func.value), []).append((x, x.args[0]))
+    returned_names = {r.value.id for r in walk_local(fn_node) if isinstance(r, ast.Return) and isinstance(r.value, ast.Name)}
+    returned_nodes = {id(r.value) for r in walk_local(fn_node) if isinstance(r, ast.Return) and r.value is not None}
+    out = []
+    for d in sorted(set(stores) & set(reads)):
+        for s, sk in stores[d]:
+            kd = ast.dump(resolve(sk))
+            same = [(r, rk) for r, rk in reads[d] if ast.dump(resolve(rk)) == kd]
+            if not same:
+                continue
+            ret = any(id(r) in returned_nodes for r, _ in same)
+            if not ret:
+                for x in walk_local(fn_node):
+                    if isinstance(x, ast.Assign) and any(x.value is r for r, _ in same) and any(isinstance(t, ast.Name) and t.id in returned_names for t in x.targets):
+                        ret = True
+            if not ret:
+                continue
+            keynodes = [sk] + [rk for _, rk in same]
+            for k in list(keynodes):
+                if resolve(k) is not k:
+                    keynodes.append(resolve(k))
+            for x in walk_local(fn_node):
+                if isinstance(x, ast.Compare) and len(x.ops) == 1 and isinstance(x.ops[0], (ast.In, ast.NotIn)) and base(x.comparators[0]) == d:
+                    keynodes.append(x.left)
+                    if resolve(x.left) is not x.left:
+                        keynodes.append(resolve(x.left))
+            out.append((d, resolve(sk), keynodes, s))
+            break
+    return out
+
+
+def _memo_verdict(idx: Optional[Index], f_node, resolve_callee, qualname: str):
+    """[(dict attr, key text, [(param path, where it is read)])]: parameter paths the memoised computation reads that the
+    key does not contain"""
+    out = []
+    for d, key, keynodes, store in memo_functions(f_node):
+        parents = {}
+        for p in ast.walk(f_node):
+            for c in ast.iter_child_nodes(p):
+                parents[c] = p
+        inkey = set()
+        for k in keynodes:
+            inkey |= {id(x) for x in ast.walk(k)}
+        a = f_node.args
+        params = [p.arg for p in a.posonlyargs + a.args + a.kwonlyargs] + [p.arg for p in (a.vararg, a.kwarg) if p]
+        params = [p for p in params if p not in ("self", "cls")]
+        keypaths = set()
+        elems = key.elts if isinstance(key, ast.Tuple) else [key]
+        for e in elems:
+            while isinstance(e, ast.Call) and call_name(e) in ("tuple", "str", "repr", "id", "frozenset", "sorted") and len(e.args) == 1:
+                e = e.args[0]
+            dn = dotted(e)
+            if dn is not None:
+                keypaths.add(dn)
+            elif isinstance(e, ast.Call) and isinstance(e.func, ast.Attribute) and dotted(e.func) and not e.args:
+                keypaths.add(dotted(e.func))
+
+        def covered(path: str) -> bool:
+            return any(path == k or path.startswith(k + ".") for k in keypaths)
+
+        missing: List[Tuple[str, str]] = []
+
+        from ..cfg import CFG
+        cfg = CFG(f_node)
+        store_ids = {n.id for n in cfg.node_containing(store)}
+        before = cfg.reachable(cfg.entry.id, avoid_nodes=store_ids)
+
+        def miss_only(x) -> bool:
+            """every complete run through the statement of x also passes the store: the statement belongs to the
+            computation of the remembered value and is skipped when the value is found"""
+            for nd in cfg.node_containing(x):
+                if nd.id in store_ids:
+                    continue
+                if nd.id in before and cfg.exit.id in cfg.reachable(nd.id, avoid_nodes=store_ids):
+                    return False
+            return True
+
+        # what the function reads again AFTER it found the remembered value is honoured on that path as well
+        # (a registry that updates the found entry from the argument is not a memo of that argument)
+        after_hit: Set[int] = set()
+        for k in keynodes:
+            for nd in cfg.node_containing(k):
+                if nd.id not in store_ids:
+                    after_hit |= cfg.reachable(nd.id, avoid_nodes=store_ids) - {nd.id}
+        hit_paths: Set[str] = set()
+        for x in walk_local(f_node):
+            if isinstance(x, ast.Name) and isinstance(x.ctx, ast.Load) and x.id in params and id(x) not in inkey:
+                nds = cfg.node_containing(x)
+                if nds and all(nd.id in after_hit and nd.id not in store_ids for nd in nds) and not miss_only(x):
+                    hit_paths.add(_param_path(parents, x)[0])
+
+        def uses(node, names: Dict[str, str], depth: int, via: str):
+            """names: local name -> path in terms of the memo function's parameters"""
+            par = parents if node is f_node else None
+            if par is None:
+                par = {}
+                for p in ast.walk(node):
+                    for c in ast.iter_child_nodes(p):
+                        par[c] = p
+            for x in walk_local(node):
+                if not (isinstance(x, ast.Name) and isinstance(x.ctx, ast.Load) and x.id in names) or id(x) in inkey:
+                    continue
+                path, top = _param_path(par, x)
+                path = names[x.id] + path[len(x.id):]
+                up = par.get(top)
+                if isinstance(up, ast.Call) and call_name(up) in ("isinstance", "hasattr") and up.args and up.args[0] is top:
+                    continue
+                if isinstance(up, ast.Compare) and all(isinstance(o, (ast.Is, ast.IsNot)) for o in up.ops):
+                    continue
+                if covered(path) or (node is f_node and not miss_only(x)) or any(path == h or path.startswith(h + '.') for h in hit_paths):
+                    continue
+                if top is x and isinstance(up, ast.Call) and x in up.args and depth < 3:
+                    g = resolve_callee(up)
+                    if g is not None:
+                        gnode, gparams = g
+                        i = up.args.index(x)
+                        if i < len(gparams):
+                            uses(gnode, {gparams[i]: path}, depth + 1, f"{via}{call_name(up)}() -> ")
+                            continue
+                if isinstance(up, ast.keyword) and top is x and depth < 3:
+                    call = par.get(up)
+                    g = resolve_callee(call) if isinstance(call, ast.Call) else None
+                    if g is not None and up.arg in g[1]:
+                        uses(g[0], {up.arg: path}, depth + 1, f"{via}{call_name(call)}() -> ")
+                        continue
+                missing.append((path, f"{via}`{ast.unparse(up if isinstance(up, (ast.Call, ast.Compare, ast.BinOp)) else top)[:70]}` line {x.lineno}"))
+
+        uses(f_node, {p: p for p in params}, 0, "")
+        out.append((d, ast.unparse(key), missing, store))
+    return out
+
+
+def memo_key_rule(ctx, res, rule: str, modules, rest: bool = False) -> None:
+    """A function that remembers its answer in `self.<d>[K]` and returns the remembered one the next time promises that the
+    answer depends on nothing but K.  For every such function of `modules`: each parameter (or attribute path of a
+    parameter) that the computation reads -- followed into the methods of the same class and functions of the same module
+    it is handed to -- is part of the key, whole or as exactly that path.  A key that names a node by its identifier, a
+    call by its text, or a resource by its path while the computation looks at more than that returns one caller's
+    answer to another.  Type tests and `is None` tests are not counted as reads; exemptions are per function and
+    parameter in MEMO_KEY_EXEMPT."""
+    idx = ctx.idx
+    covered_mods = ("rope.refactor.similarfinder", "rope.refactor.restructure", "rope.refactor.wildcards", "rope.refactor.extract",
+                    "rope.refactor.change_signature", "rope.refactor.functionutils", "rope.base.resources", "rope.base.project",
+                    "rope.base.fscommands", "rope.base.libutils")
+
+    # the detector itself, on a fixed positive and negative example
+    tree = ast.parse(_MEMO_SELFCHECK).body[0]
+    meths = {m.name: m for m in tree.body}
+
+    def rc(call):
+        if isinstance(call.func, ast.Attribute) and isinstance(call.func.value, ast.Name) and call.func.value.id == "self" and call.func.attr in meths:
+            return meths[call.func.attr], param_names(meths[call.func.attr])[1:]
+        return None
+    good = _memo_verdict(None, meths["good"], rc, "M.good")
+    badv = _memo_verdict(None, meths["bad"], rc, "M.bad")
+    if not (len(good) == 1 and not good[0][2] and len(badv) == 1 and {p for p, _ in badv[0][2]} == {"a.y", "b"}):
+        raise AnalysisError(f"memo-key detector self-check failed: {good} {badv}")
+
+    n = 0
+    for f in sorted(idx.functions.values(), key=lambda f: f.qualname):
+        mod = f.unit.modname
+        if not (mod in modules or (rest and mod.startswith("rope.") and mod not in covered_mods)):
+            continue
+        if isinstance(f.node, ast.Lambda):
+            continue
+
+        def resolve_callee(call, f=f):
+            fn = call.func
+            g = None
+            if isinstance(fn, ast.Attribute) and isinstance(fn.value, ast.Name) and fn.value.id in ("self", "cls"):
+                h = f
+                while h is not None and h.cls is None:
+                    h = h.parent
+                if h is not None:
+                    g = idx.find_method(h.cls.qualname, fn.attr)
+            elif isinstance(fn, ast.Name):
+                g = idx.functions.get(f"{f.qualname}.<locals>.{fn.id}") or idx.functions.get(f"{f.unit.modname}.{fn.id}")
+            if g is None or isinstance(g.node, ast.Lambda):
+                return None
+            return g.node, g.call_params()
+
+        for d, key, missing, store in _memo_verdict(idx, f.node, resolve_callee, f.qualname):
+            n += 1
+            short = f.qualname.split(".", 2)[-1].replace(".<locals>", "")
+            missing = [(p, w) for p, w in missing if f"{f.qualname}|{p.split('.')[0]}" not in MEMO_KEY_EXEMPT]
+            ok = not missing
+            seenp = []
+            for p, w in missing:
+                if p not in [q for q, _ in seenp]:
+                    seenp.append((p, w))
+            res.add(rule, f"{short}|memo-key-complete:{d}", ok, f"{f.unit.rel}:{store.lineno}",
+                    f"self.{d} is keyed by `{key}`, which contains everything of the parameters the computation reads" if ok else
+                    f"{short} remembers its answer in self.{d} under the key `{key}`, but the computation also reads "
+                    + ", ".join(f"`{p}` ({w})" for p, w in seenp[:3]) +
+                    ": two calls that agree on the key and differ there get the answer computed for the first one",
+                    function=f.qualname, key=key)
+    res.analysed[f"memo functions:{rule}"] = n
